@@ -217,7 +217,7 @@ def o_burst(ad, a, b, c):
     n = [300, 520][a & 1] if b < 64 else 18 + a % 24
     ops = [("window", ad, [1, 4, 16, 3][c % 4])]
     for j in range(n):
-        ops.append(("publish", ad, ((a >> 1) + j * (1 + (c >> 2) % 3)) % 3, 0, 0, 0, 0))
+        ops.append(("publish", ad, ((a >> 1) + j * (1 + (c >> 2) % 3)) % 3, 0, (c >> 4) & 1, 0 if c & 32 else j % 2, 0))
     return ops + [("settle", ad)] * (1 + n // 100)
 
 
